@@ -285,8 +285,16 @@ impl<K: SimKernel<D>, const D: usize> Monitor<K, D> for C15 {
         // not apply; the simplex counts and the agreement of the indexed variants do. Judged only
         // where the library's own Levels 1-3 accept the state.
         if post.policies.get(4).is_some_and(|m| m.contains("Toroidal")) {
-            if post.cells.is_empty() || dt.tds().is_valid().is_err() || dt.as_triangulation().is_valid().is_err() {
-                ctx.stats.bump("c15.periodic_state_not_valid");
+            if post.cells.is_empty() {
+                ctx.stats.bump("c15.periodic_state_without_cells");
+                return;
+            }
+            if dt.tds().is_valid().is_err() {
+                ctx.stats.bump("c15.periodic_state_rejected_by_levels_1_2");
+                return;
+            }
+            if dt.as_triangulation().is_valid().is_err() {
+                ctx.stats.bump("c15.periodic_state_rejected_by_level_3");
                 return;
             }
             ctx.stats.bump("c15.periodic_state_judged");
